@@ -155,6 +155,11 @@ Section Oracle.
   Definition mk_bv (w : Z) : sexp := T [L (lit "_"); L (lit "BitVec"); L (if Z.ltb w 0 then 45%N :: to_dec (Z.to_N (- w)) else to_dec (Z.to_N w))].
   Definition opt_sexp_eqb (a : option sexp) (b : sexp) : bool := match a with Some x => sexp_eqb x b | None => false end.
 
+  (* smtlib.has_comment_operand (F69): a list with a comment (a leaf whose text starts with ';') among its children;
+     get_sort answers unknown for it, at every level of the recursion *)
+  Definition is_comment_leaf (e : sexp) : bool := match e with L (59%N :: _) => true | _ => false end.
+  Definition has_comment_operand (e : sexp) : bool := match e with T l => existsb is_comment_leaf l | L _ => false end.
+
   (* _get_sort_aux, with the recursive calls of get_sort; idx: the node is marked as an index of an indexed operator.
      Outer None = exception (get_sort answers unknown) *)
   Fixpoint sort_aux (idx : bool) (e : sexp) : option (option sexp) :=
@@ -171,7 +176,7 @@ Section Oracle.
           | Some w =>
               if negb (Z.eqb w (-1)) then Some (Some (mk_bv w))
               else
-                let gs := fun x => match sort_aux false x with Some r => r | None => None end in   (* get_sort: exceptions -> unknown *)
+                let gs := fun x => if has_comment_operand x then None else match sort_aux false x with Some r => r | None => None end in   (* get_sort: comment operand or exception -> unknown *)
                 match e with
                 | T (L ident :: a1 :: rest) =>
                     if iss ident "ite" && Nat.ltb 2 (len e) then
@@ -227,7 +232,7 @@ Section Oracle.
     end.
 
   Definition get_sort (idx : bool) (e : sexp) : option sexp :=
-    match sort_aux idx e with Some r => r | None => None end.
+    if has_comment_operand e then None else match sort_aux idx e with Some r => r | None => None end.
   Definition get_bv_width (e : sexp) : Z := match bv_width e with Some w => w | None => (-2)%Z end.   (* -2: raises *)
 End Oracle.
 
